@@ -9,6 +9,8 @@
 * random construction histories checked against the model after every call.
 """
 import itertools
+
+import numpy as np
 import random
 
 from vf import desc as D, extract as X, netmon
@@ -47,7 +49,14 @@ def mk(M, kind, rng, pool):
         return pool["N"][rng.randrange(len(pool["N"]))] if rng.random() < 0.3 and pool["N"] else _new(M, "N", pool)
     if kind == "L":
         return _new(M, "L", pool)
-    return rng.choice(("a string", 7, None, M.Origin(), M.Destination(), object()))
+    # what stands where an element should: also the NAME of an element that is in the network (a string is not a node)
+    r_ = rng.random()
+    if r_ < 0.4 and pool["N"]:
+        nm = rng.choice(pool["N"]).name
+        return nm if rng.random() < 0.7 else np.str_(nm)
+    if r_ < 0.5 and pool["L"]:
+        return rng.choice(pool["L"]).name
+    return rng.choice(("a string", 7, None, M.Origin(), M.Destination(), object(), (), 2.5))
 
 
 def _new(M, kind, pool):
@@ -115,6 +124,36 @@ def path_shapes(M, rec, rng, maxlen, k, nsh):
                 if rec.counters["path_calls"] in (40, 400):
                     rec.sample({"path_shape": "".join(shape), "origin": with_o, "destination": with_d,
                                 "well_formed": wf, "raised": type(raised).__name__ if raised else None})
+
+
+def names_in_place_of_nodes(M, rec):
+    """Scripted in every run: the name of a node that IS in the network (str / numpy.str_) stands at the first, an
+    interior or the last node position of a path - a string is not a node, the path is malformed and nothing is added."""
+    mkl = lambda: M.Link(2, 2, 1.0, 180.0, 33.0, 100.0, 1.8)  # noqa: E731
+    for pos in ("first", "interior", "last"):
+        for conv in (str, np.str_):
+            for with_d in (False, True):
+                a, b, c = M.Node(name="A1"), M.Node(name="B1"), M.Node(name="C1")
+                net = M.Network().add_path((a, mkl(), b, mkl(), c))
+                x = M.Node(name="X1")
+                path = {"first": [conv("B1"), mkl(), x], "interior": [x, mkl(), conv("B1"), mkl(), a], "last": [x, mkl(), conv("A1")]}[pos]
+                before = netmon.graph_state(net)
+                rec.count("path_calls")
+                rec.count("paths_with_a_name_in_place_of_a_node")
+                try:
+                    net.add_path(path, destination=(M.Destination() if with_d else None))
+                    raised = None
+                except Exception as e:
+                    raised = e
+                all_nodes_are_nodes(M, net, rec, "add_path", None)
+                if raised is None:
+                    rec.violation(f"{PROP}:add_path: malformed path accepted without error (the name of a node of the network in place of a node, {pos} position; "
+                                  f"destination={'yes' if with_d else 'no'})", {"position": pos, "type": conv.__name__})
+                else:
+                    rec.count("malformed_paths_rejected")
+                    rec.seen("rejection_exception_types", type(raised).__name__)
+                    if pos == "first" and netmon.graph_state(net) != before:
+                        rec.violation(f"{PROP}:add_path: a path rejected at its first element changed the network", {"position": pos})
 
 
 def histories(M, rec, rng, reps):
@@ -312,6 +351,7 @@ def run(M, rec, tier, seed, k, n):
     netmon.install_transitions(M)
     maxlen = 6 if tier == "quick" else 8
     rec.extra["path_shapes_exhaustive_up_to_length"] = maxlen
+    names_in_place_of_nodes(M, rec)
     path_shapes(M, rec, rng, maxlen, k, n)
     histories(M, rec, rng, 600 if tier == "quick" else 12000)
     if k == 0:
